@@ -1,6 +1,7 @@
 package rules
 
 import (
+	"go/constant"
 	"go/ast"
 	"go/token"
 	"go/types"
@@ -415,3 +416,70 @@ func inPlaceLiteral(zero *ssa.Store) (map[string]ssa.Value, bool) {
 }
 
 func readFileWithOverlay(l *core.Ledger, fname string) ([]byte, error) { return l.Prog.ReadFile(fname) }
+
+// flagOp classifies a call of a method of the runtime's atomicFlag type by
+// what the method does, not by its name: "set" (stores non-zero), "clear"
+// (stores zero), "get" (loads). A method storing a value computed from a
+// boolean parameter is classified by the constant passed at the call.
+func flagOp(cc *ssa.CallCommon) (op string, ok bool) {
+	f := cc.StaticCallee()
+	if f == nil || f.Signature.Recv() == nil || !isNamed(f.Signature.Recv().Type(), core.RootModule, "atomicFlag") || len(cc.Args) == 0 {
+		return "", false
+	}
+	stores, loads := 0, 0
+	var stored ssa.Value
+	sx.AllInstrs(f, func(_ sx.Node, in ssa.Instruction) {
+		c := sx.CallOf(in)
+		if c == nil {
+			return
+		}
+		name := sx.StaticCalleeName(c)
+		switch {
+		case strings.HasPrefix(name, "sync/atomic.Store"), strings.HasPrefix(name, "sync/atomic.Swap"):
+			stores++
+			if len(c.Args) >= 2 {
+				stored = c.Args[1]
+			}
+		case strings.HasPrefix(name, "sync/atomic.Load"):
+			loads++
+		case strings.HasPrefix(name, "sync/atomic.CompareAndSwap"):
+			stores++
+			if len(c.Args) >= 3 {
+				stored = c.Args[2]
+			}
+		}
+	})
+	switch {
+	case stores == 0 && loads > 0:
+		return "get", true
+	case stores == 1 && stored != nil:
+		if k, isC := stored.(*ssa.Const); isC && k.Value != nil {
+			if constant.Sign(k.Value) == 0 {
+				return "clear", true
+			}
+			return "set", true
+		}
+		// a value chosen by a boolean parameter: decided by the argument at this call
+		if len(f.Params) == 2 && len(cc.Args) == 2 {
+			if b, isB := f.Params[1].Type().Underlying().(*types.Basic); isB && b.Kind() == types.Bool {
+				if k, isC := cc.Args[1].(*ssa.Const); isC && k.Value != nil {
+					if constant.BoolVal(k.Value) {
+						return "set", true
+					}
+					return "clear", true
+				}
+			}
+		}
+	}
+	return "", false
+}
+
+// isFlagOp matches a call that performs op on the flag field named field.
+func isFlagOp(cc *ssa.CallCommon, op, field string) bool {
+	got, ok := flagOp(cc)
+	if !ok || got != op {
+		return false
+	}
+	_, is := fieldAddrOf(cc.Args[0], field)
+	return is
+}
